@@ -17,7 +17,7 @@ from . import _c02_util as U
 from ._c02_classes import CLASSES, _Skip, _dt
 
 ID = "C02"
-LEAN_MODULES = ["NiftyVerif.Props.C02"]
+LEAN_MODULES = ["NiftyVerif.Props.C02", "NiftyVerif.Model.LinOpsProto"]
 DRIVER = "Driver/C02.lean"
 TRANSLATORS = []
 OBLIGATIONS = ["NiftyVerif.C02." + t for t in (
